@@ -22,13 +22,16 @@ ON = {"ODE": ["dyn_loss", "initial_condition", "observations"], "statio": ["dyn_
 PR = "jinns.parameters._params:"
 
 
-def batched(kind, K, B, grad_group=None):
+def batched(kind, K, B, grad_group=None, int_caller=False):
     K = tuple(K)
     def build():
         S = Scen(kind, B=B)
         terms = TERMS[kind]
         extra = [Inp("acol", (B, 1)), Inp("bcol", (B, 1))]
         names = S.names(mask_shape=(len(terms), 3), extra=extra)
+        base_inputs = S.inputs(mask_shape=(len(terms), 3), extra=extra)
+        if int_caller:      # the caller's own (overridden) value of a batched key is integer typed
+            base_inputs = [Inp(i.name, i.shape, "int") if i.name in K else i for i in base_inputs]
         def pb(a):
             return {k: a[k + "col"] for k in K}
         def run(a):
@@ -67,10 +70,12 @@ def batched(kind, K, B, grad_group=None):
                         tot = tot + s["mk"][i, gi] * P.diff(sp[t], var)
                 return arr(lambda _: tot + (1 if wrong else 0), ())
         return dict(fn=fn, spec=spec, canary=lambda *z: spec(*z, wrong=True),
-                    inputs=S.inputs(mask_shape=(len(terms), 3), extra=extra), timeout_ms=20000)
+                    inputs=base_inputs, timeout_ms=20000)
     cls = {"ODE": "jinns.loss._LossODE:LossODE.evaluate", "statio": "jinns.loss._LossPDE:LossPDEStatio.evaluate",
            "nonstatio": "jinns.loss._LossPDE:LossPDENonStatio.evaluate"}[kind]
     what = "terms" if grad_group is None else f"gradient[{grad_group}]"
+    if int_caller:
+        what += ".integer_typed_caller_value"
     return EqObligation(f"C12/{cls.split(':')[1]}/ensures.param_batch.{what}[{kind},K={'+'.join(K) or 'none'},B={B}]", build,
                         [cls, PR + "_update_eq_params_dict", PR + "_get_vmap_in_axes_params"])
 
@@ -163,6 +168,8 @@ def obligations(tier):
         for g in ("th", "a", "b"):
             obs.append(batched(kind, ("a",), 2, grad_group=g))
         obs.append(batched(kind, ("b",), 2, grad_group="a"))
+        obs.append(batched(kind, ("a",), 2, int_caller=True))
+        obs.append(batched(kind, ("a", "b"), 2, int_caller=True))
         obs.append(observed_and_batched(kind, 2))
         for declared in ({"a": "h"}, {"b": "h", "a": None}, {}, {"a": "h", "b": "h"}):
             obs.append(hetero(kind, declared, "evaluate"))
